@@ -119,6 +119,7 @@ const OpInfo op_info[OP_NOPS] = {
     {"spqlios_alloc/spqlios_free", 0, "", LC, -1, OP_NONE, false},
     {"new_*_fft_precomp with buffers/get_buffer/delete", 0, "", LC, -1, OP_NONE, false},
     {"two modules of one dimension, one deleted, the other used", 0, "", LC, -1, OP_NONE, false},
+    {"sequence of module creations, uses and deletions", 0, "", LC, -1, OP_NONE, false},
 };
 
 int& op_selfcheck_errors() {
@@ -427,6 +428,71 @@ void op_invoke(const Program& P, const Call& c, const std::vector<void*>& mods, 
       free(b);
       free(tmp2);
       delete_module_info(surv);
+      break;
+    }
+    case OP_LIFE_MODULE_SEQ: {
+      // up to four module handles over three dimensions are created, used and deleted in a seeded order; every use
+      // checks idft(dft(a)) == a and an out-of-place automorphism against the definition. What one module instance does
+      // must not depend on which other instances exist, existed, or lived at the same address.
+      uint64_t st = c.p[0] * 0x9E3779B97F4A7C15ull + 7;
+      auto rnd = [&]() {
+        st ^= st << 13;
+        st ^= st >> 7;
+        st ^= st << 17;
+        return st;
+      };
+      const MODULE_TYPE t = c.p[2] ? NTT120 : FFT64;
+      uint64_t dims[3];
+      for (int i = 0; i < 3; ++i) dims[i] = 1ull << (1 + (rnd() >> 33) % (c.p[3] ? c.p[3] : 6));
+      static const int64_t ps[] = {3, 5, -1, 7, -3, 1};
+      MODULE* h[4] = {0, 0, 0, 0};
+      uint64_t hn[4] = {0, 0, 0, 0};
+      int bad = 0;
+      for (uint64_t step = 0; step < c.p[1]; ++step) {
+        int k = (int)((rnd() >> 40) & 3);
+        uint64_t what = (rnd() >> 35) % 3;
+        if (!h[k]) {
+          hn[k] = dims[(rnd() >> 37) % 3];
+          h[k] = new_module_info(hn[k], t);
+        } else if (what == 0) {
+          delete_module_info(h[k]);
+          h[k] = 0;
+        } else {
+          const uint64_t n = hn[k];
+          int64_t* a = (int64_t*)malloc(n * 8);
+          int64_t* r = (int64_t*)malloc(n * 8);
+          void* d = malloc(n * (t == NTT120 ? 32 : 8));
+          void* b = malloc(n * 16);
+          uint64_t tb = vec_znx_idft_tmp_bytes(h[k]);
+          uint8_t* tmp2 = (uint8_t*)malloc(tb ? tb : 8);
+          for (uint64_t i = 0; i < n; ++i) a[i] = (int64_t)((rnd() >> 30) % 1021) - 510;
+          vec_znx_dft(h[k], (VEC_ZNX_DFT*)d, 1, a, 1, n);
+          vec_znx_idft(h[k], (VEC_ZNX_BIG*)b, 1, (const VEC_ZNX_DFT*)d, 1, tmp2);
+          for (uint64_t i = 0; i < n; ++i) {
+            if (t == NTT120) {
+              __int128 v;
+              memcpy(&v, (uint8_t*)b + i * 16, 16);
+              if (v != (__int128)a[i]) bad++;
+            } else if (((int64_t*)b)[i] != a[i])
+              bad++;
+          }
+          const int64_t p = ps[(rnd() >> 36) % 6];
+          vec_znx_automorphism(h[k], p, r, 1, n, a, 1, n);
+          for (uint64_t i = 0; i < n; ++i) {
+            uint64_t e = (i * (uint64_t)p) & (2 * n - 1);
+            int64_t want = e < n ? a[i] : -a[i];
+            if (r[e < n ? e : e - n] != want) bad++;
+          }
+          free(a);
+          free(r);
+          free(d);
+          free(b);
+          free(tmp2);
+        }
+      }
+      for (int k = 0; k < 4; ++k)
+        if (h[k]) delete_module_info(h[k]);
+      op_selfcheck_errors() = bad;
       break;
     }
     case OP_LIFE_TABLE: {
